@@ -427,6 +427,7 @@ func lzhuf.(*Writer).Close(w) (err)
 # is not proved.)
 pred PutOK(w) := w.putlen < 8 && ((w.putbuf & 65535) & (65535 >> u64(w.putlen))) == 0
 pred P2(n) := ite(n <= 0, 1, ite(n == 1, 2, ite(n == 2, 4, ite(n == 3, 8, ite(n == 4, 16, ite(n == 5, 32, ite(n == 6, 64, ite(n == 7, 128, ite(n == 8, 256, ite(n == 9, 512, ite(n == 10, 1024, ite(n == 11, 2048, ite(n == 12, 4096, ite(n == 13, 8192, ite(n == 14, 16384, ite(n == 15, 32768, 65536))))))))))))))))
+pred P2w(n) := ite(n <= 16, P2(n), ite(n == 17, 131072, ite(n == 18, 262144, ite(n == 19, 524288, ite(n == 20, 1048576, ite(n == 21, 2097152, ite(n == 22, 4194304, ite(n == 23, 8388608, ite(n == 24, 16777216, ite(n == 25, 33554432, ite(n == 26, 67108864, ite(n == 27, 134217728, ite(n == 28, 268435456, ite(n == 29, 536870912, ite(n == 30, 1073741824, ite(n == 31, 2147483648, 4294967296))))))))))))))))
 pred PendV(w) := (w.putbuf & 65535) >> (16 - u64(w.putlen))
 
 func lzhuf.(*Writer).putCode(w, l, c) ()
@@ -450,14 +451,17 @@ func lzhuf.(*Writer).encodeChar(w, c) ()
   requires pending: PutOK(w)
   ensures inv: HuffInv(w.z)
   ensures no-error: old(w.err) == nil ==> w.err == nil
-  # the code of a symbol must fit the 16-bit code word.  KNOWN FINDING: it need not - Fibonacci-like
-  # frequencies reach depth 17 below the 0x8000 rebuild limit; the first-collected bit is then lost
-  # and the decoder, which has no such limit, decodes the sibling symbol (silent corruption)
-  call lzhuf.(*Writer).putCode requires code-fits-16-bits: $1 <= 16
+  # the code is collected in a 32-bit word and handed to putCode in pieces of at most 16 bits (defect
+  # 39, fixed: a code longer than 16 bits lost its first-collected bit).  ASSUMPTION: no code is longer
+  # than 32 bits - a leaf at depth d needs a root weight of at least Fib(d+1), and the root weight never
+  # exceeds 0x8000 < Fib(24); this bound is mathematics about the tree, not proved here
+  call lzhuf.(*Writer).putCode#0 assume depth-at-most-32: j <= 32
+  call lzhuf.(*Writer).putCode requires piece-fits-the-16-bit-code-word: $1 <= 16 && 1 <= $1
+  call lzhuf.(*Writer).putCode requires piece-is-a-well-formed-code-word: $2 < 65536 && $2 % P2(16 - $1) == 0
   ensures pending: PutOK(w)
   loop 0 invariant node: 0 <= k && k < _R
   loop 0 invariant j: 0 <= j && j <= k + 1
-  loop 0 invariant code-word: 0 <= i && i < 65536 && i % P2(16 - j) == 0
+  loop 0 invariant code-word: 0 <= i && i < 4294967296 && i % P2w(32 - j) == 0
   loop 0 decreases _R - k
 
 # a position is its upper 6 bits through the canonical code table followed by its lower 6 bits
